@@ -16,15 +16,15 @@ namespace Wormhole
 namespace Chan
 
 /-- the mailbox row (app, mb) exists -/
-def HasMb (d : Chan) (app mb : String) : Prop := ∃ m ∈ d.mailboxes, m.app = app ∧ m.id = mb
+def HasBox (d : Chan) (app mb : String) : Prop := ∃ m ∈ d.mailboxes, m.app = app ∧ m.id = mb
 
-instance (d : Chan) (app mb : String) : Decidable (d.HasMb app mb) := by
-  unfold HasMb; infer_instance
+instance (d : Chan) (app mb : String) : Decidable (d.HasBox app mb) := by
+  unfold HasBox; infer_instance
 
 /-- `mb` is a mailbox id under ANOTHER app and not under `app`: the situation in which
     `_add_mailbox` raises IntegrityError (finding K-global-mailbox-id) -/
 def Clash (d : Chan) (app mb : String) : Prop :=
-  (∃ m ∈ d.mailboxes, m.id = mb ∧ m.app ≠ app) ∧ ¬ d.HasMb app mb
+  (∃ m ∈ d.mailboxes, m.id = mb ∧ m.app ≠ app) ∧ ¬ d.HasBox app mb
 
 instance (d : Chan) (app mb : String) : Decidable (d.Clash app mb) := by
   unfold Clash; infer_instance
@@ -36,14 +36,14 @@ def sidesOf (d : Chan) (mb : String) : List String := (d.mbSidesOf mb).map (·.s
 def first2 (d : Chan) (mb : String) : List String := ((d.mbSidesOf mb).take 2).map (·.side)
 
 theorem findMailbox_isSome {d : Chan} {app mb : String} :
-    (d.findMailbox app mb).isSome ↔ d.HasMb app mb := by
-  simp [findMailbox, HasMb, List.find?_isSome]
+    (d.findMailbox app mb).isSome ↔ d.HasBox app mb := by
+  simp [findMailbox, HasBox, List.find?_isSome]
 
 theorem findMailbox_eq_none {d : Chan} {app mb : String} :
-    d.findMailbox app mb = none ↔ ¬ d.HasMb app mb := by
+    d.findMailbox app mb = none ↔ ¬ d.HasBox app mb := by
   rw [← findMailbox_isSome]; cases d.findMailbox app mb <;> simp
 
-theorem findMailbox_some {d : Chan} {app mb : String} {row : MailboxRow}
+theorem findMailbox_some_mbx {d : Chan} {app mb : String} {row : MailboxRow}
     (h : d.findMailbox app mb = some row) : row ∈ d.mailboxes ∧ row.app = app ∧ row.id = mb := by
   refine ⟨List.mem_of_find?_eq_some h, ?_⟩
   simpa using List.find?_some h
@@ -56,7 +56,7 @@ theorem findMbSide_eq_none {d : Chan} {mb side : String} :
     d.findMbSide mb side = none ↔ ∀ r ∈ d.mbSides, ¬ (r.mailbox = mb ∧ r.side = side) := by
   simp [findMbSide, List.find?_eq_none]
 
-theorem findMbSide_some {d : Chan} {mb side : String} {r : MbSide}
+theorem findMbSide_some_mbx {d : Chan} {mb side : String} {r : MbSide}
     (h : d.findMbSide mb side = some r) : r ∈ d.mbSides ∧ r.mailbox = mb ∧ r.side = side := by
   refine ⟨List.mem_of_find?_eq_some h, ?_⟩
   simpa using List.find?_some h
@@ -67,13 +67,13 @@ theorem findMbSide_isSome {d : Chan} {mb side : String} :
 
 /-- under `PInv` the row with id `mb` is the row (app, mb) as soon as that one exists -/
 theorem app_of_id {d : Chan} (hids : d.mailboxes.Pairwise (fun a b => ¬ a.id = b.id))
-    {app mb : String} (h : d.HasMb app mb)
+    {app mb : String} (h : d.HasBox app mb)
     {m : MailboxRow} (hm : m ∈ d.mailboxes) (hid : m.id = mb) : m.app = app := by
   obtain ⟨m0, hm0, ha, hi⟩ := h
   have : m = m0 := eq_of_pairwise_ne (f := MailboxRow.id) hids hm hm0 (by rw [hid, hi])
   rw [this, ha]
 
-theorem PInv.app_of_id {d : Chan} (hP : d.PInv) {app mb : String} (h : d.HasMb app mb)
+theorem PInv.app_of_id {d : Chan} (hP : d.PInv) {app mb : String} (h : d.HasBox app mb)
     {m : MailboxRow} (hm : m ∈ d.mailboxes) (hid : m.id = mb) : m.app = app :=
   Chan.app_of_id hP.mbIds h hm hid
 
@@ -131,19 +131,19 @@ theorem openDb_mbSidesOf (mb' : String) :
     · have : ¬ mb = mb' := fun e => hm e.symm
       simp [hm, this]
 
-theorem openDb_hasMb : (d.openDb app mb side t).HasMb app mb := by
-  unfold HasMb openDb
+theorem openDb_hasBox : (d.openDb app mb side t).HasBox app mb := by
+  unfold HasBox openDb
   cases h : d.findMailbox app mb with
   | none => exact ⟨⟨app, mb, t, false⟩, by simp, rfl, rfl⟩
   | some row =>
-    obtain ⟨hm, ha, hi⟩ := findMailbox_some h
+    obtain ⟨hm, ha, hi⟩ := findMailbox_some_mbx h
     refine ⟨{ row with updated := t }, ?_, ha, hi⟩
     simp only [List.mem_map]
     exact ⟨row, hm, by simp [ha, hi]⟩
 
 /-- mailbox rows by key: `openDb` adds the key (app, mb) and removes none -/
-theorem openDb_hasMb_iff (app' mb' : String) :
-    (d.openDb app mb side t).HasMb app' mb' ↔ d.HasMb app' mb' ∨ (app' = app ∧ mb' = mb) := by
+theorem openDb_hasBox_iff (app' mb' : String) :
+    (d.openDb app mb side t).HasBox app' mb' ↔ d.HasBox app' mb' ∨ (app' = app ∧ mb' = mb) := by
   constructor
   · rintro ⟨m, hm, ha, hi⟩
     unfold openDb at hm
@@ -160,7 +160,7 @@ theorem openDb_hasMb_iff (app' mb' : String) :
       · rw [← ha]; split <;> rfl
       · rw [← hi]; split <;> rfl
   · rintro (⟨m, hm, ha, hi⟩ | ⟨rfl, rfl⟩)
-    · unfold HasMb openDb
+    · unfold HasBox openDb
       cases h : d.findMailbox app mb with
       | none => exact ⟨m, by simp [hm], ha, hi⟩
       | some row =>
@@ -168,7 +168,7 @@ theorem openDb_hasMb_iff (app' mb' : String) :
         · simp only [List.mem_map]; exact ⟨m, hm, rfl⟩
         · rw [← ha]; split <;> rfl
         · rw [← hi]; split <;> rfl
-    · exact openDb_hasMb d app' mb' side t
+    · exact openDb_hasBox d app' mb' side t
 
 end openDb
 
@@ -201,7 +201,7 @@ theorem mem_dropMailbox_npSides {r : NpSide} :
   simp [dropMailbox, List.mem_filter]
 
 /-- the deleted mailbox is gone ... -/
-theorem dropMailbox_not_hasMb : ¬ (d.dropMailbox app mb).HasMb app mb := by
+theorem dropMailbox_not_hasBox : ¬ (d.dropMailbox app mb).HasBox app mb := by
   rintro ⟨m, hm, ha, hi⟩
   exact ((mem_dropMailbox_mailboxes d app mb).1 hm).2 ⟨ha, hi⟩
 
@@ -292,7 +292,7 @@ theorem closeSide_mbSides_filter (d : Chan) (mb side : String) (mood : Option St
 /-- the five DELETEs of `Mailbox.close` remove exactly what belongs to (app, mb) -/
 theorem deletes_eq_dropMailbox {d : Chan} (hids : d.mailboxes.Pairwise (fun a b => ¬ a.id = b.id))
     (hfk : ∀ r ∈ d.messages, ∃ m ∈ d.mailboxes, m.id = r.mailbox ∧ m.app = r.app)
-    {app mb : String} (h : d.HasMb app mb) :
+    {app mb : String} (h : d.HasBox app mb) :
     ((((d.delNpSidesOfMailbox app mb).delNameplatesOfMailbox app mb).delMessagesOf mb).delMbSidesOf
       mb).delMailbox mb = d.dropMailbox app mb := by
   simp only [delNpSidesOfMailbox, delNameplatesOfMailbox, delMessagesOf, delMbSidesOf, delMailbox,
@@ -322,8 +322,8 @@ theorem deletes_eq_dropMailbox {d : Chan} (hids : d.mailboxes.Pairwise (fun a b 
       simp [hid, ← e2, this]
     · simp [hid]
 
-theorem closeSide_hasMb {d : Chan} {mb side : String} {mood : Option String} {app' mb' : String} :
-    (d.closeSide mb side mood).HasMb app' mb' ↔ d.HasMb app' mb' := Iff.rfl
+theorem closeSide_hasBox {d : Chan} {mb side : String} {mood : Option String} {app' mb' : String} :
+    (d.closeSide mb side mood).HasBox app' mb' ↔ d.HasBox app' mb' := Iff.rfl
 
 theorem dropMailbox_closeSide (d : Chan) (app mb side : String) (mood : Option String) :
     (d.closeSide mb side mood).dropMailbox app mb = d.dropMailbox app mb := by
@@ -392,7 +392,7 @@ theorem openRaw_eq_openDb {d : Chan} (hids : d.mailboxes.Pairwise (fun a b => ¬
   unfold openRaw openDb
   cases hm : d.findMailbox app mb with
   | some row =>
-    have hh : d.HasMb app mb := findMailbox_isSome.1 (by simp [hm])
+    have hh : d.HasBox app mb := findMailbox_isSome.1 (by simp [hm])
     have hmap : d.mailboxes.map (fun r => if r.id = mb then { r with updated := t } else r) =
         d.mailboxes.map (fun r => if r.app = app ∧ r.id = mb then { r with updated := t } else r) := by
       apply List.map_congr_left
@@ -441,15 +441,15 @@ theorem SameRest.trans {a b c : Sys} (h1 : SameRest a b) (h2 : SameRest b c) : S
   ⟨h2.conns.trans h1.conns, h2.udb.trans h1.udb, h2.udisk.trans h1.udisk, h2.cfg.trans h1.cfg,
    h2.rebooted.trans h1.rebooted⟩
 
-@[simp] theorem modDb_rebooted (s : Sys) (f) : (s.modDb f).rebooted = s.rebooted := rfl
-@[simp] theorem modUdb_rebooted (s : Sys) (f) : (s.modUdb f).rebooted = s.rebooted := rfl
-@[simp] theorem updConn_rebooted (s : Sys) (c f) : (s.updConn c f).rebooted = s.rebooted := rfl
-@[simp] theorem stopListeners_rebooted (s : Sys) (a m) : (s.stopListeners a m).rebooted = s.rebooted := rfl
-@[simp] theorem emit_rebooted (s : Sys) (e) : (s.emit e).rebooted = s.rebooted := rfl
-@[simp] theorem emit_conns (s : Sys) (e) : (s.emit e).conns = s.conns := rfl
-@[simp] theorem commit_rebooted (s : Sys) : s.commit.rebooted = s.rebooted := by
+@[simp] theorem modDb_rebooted_mbx (s : Sys) (f) : (s.modDb f).rebooted = s.rebooted := rfl
+@[simp] theorem modUdb_rebooted_mbx (s : Sys) (f) : (s.modUdb f).rebooted = s.rebooted := rfl
+@[simp] theorem updConn_rebooted_mbx (s : Sys) (c f) : (s.updConn c f).rebooted = s.rebooted := rfl
+@[simp] theorem stopListeners_rebooted_mbx (s : Sys) (a m) : (s.stopListeners a m).rebooted = s.rebooted := rfl
+@[simp] theorem emit_rebooted_mbx (s : Sys) (e) : (s.emit e).rebooted = s.rebooted := rfl
+@[simp] theorem emit_conns_mbx (s : Sys) (e) : (s.emit e).conns = s.conns := rfl
+@[simp] theorem commit_rebooted_mbx (s : Sys) : s.commit.rebooted = s.rebooted := by
   unfold commit; split <;> rfl
-@[simp] theorem ucommit_rebooted (s : Sys) : s.ucommit.rebooted = s.rebooted := by
+@[simp] theorem ucommit_rebooted_mbx (s : Sys) : s.ucommit.rebooted = s.rebooted := by
   unfold ucommit; split <;> rfl
 
 theorem SameRest.commit (s : Sys) : SameRest s s.commit := ⟨by simp, by simp, by simp, by simp, by simp⟩
@@ -657,8 +657,8 @@ theorem mailboxClose_exact {s s1 : Sys} {app mb side : String} {mood : Option St
     {b : Bool} (hP : s.db.PInv) (hN : s.db.NpHasSide)
     (h : s.mailboxClose app mb side mood t = (s1, b)) :
     b = true ∧ s1.cfg = s.cfg ∧ s1.rebooted = s.rebooted ∧
-    ((¬ s.db.HasMb app mb ∨ s.db.findMbSide mb side = none) → s1 = s) ∧
-    (s.db.HasMb app mb → s.db.findMbSide mb side ≠ none →
+    ((¬ s.db.HasBox app mb ∨ s.db.findMbSide mb side = none) → s1 = s) ∧
+    (s.db.HasBox app mb → s.db.findMbSide mb side ≠ none →
       s1.disk = s1.db ∧
       (s.db.OtherOpen mb side → s1.db = s.db.closeSide mb side mood ∧ SameRest s s1) ∧
       (¬ s.db.OtherOpen mb side →
@@ -671,14 +671,14 @@ theorem mailboxClose_exact {s s1 : Sys} {app mb side : String} {mood : Option St
     obtain ⟨rfl, rfl⟩ := h
     exact ⟨rfl, rfl, rfl, fun _ => rfl, fun hh => absurd hh (Chan.findMailbox_eq_none.1 hn)⟩
   · rename_i row hrow
-    have hh : s.db.HasMb app mb := Chan.findMailbox_isSome.1 (by simp [hrow])
+    have hh : s.db.HasBox app mb := Chan.findMailbox_isSome.1 (by simp [hrow])
     split at h
     · rename_i hn
       simp only [Prod.mk.injEq] at h
       obtain ⟨rfl, rfl⟩ := h
       exact ⟨rfl, rfl, rfl, fun _ => rfl, fun _ hne => absurd hn hne⟩
     · rename_i r0 hr0
-      have hsome : ¬ (¬ s.db.HasMb app mb ∨ s.db.findMbSide mb side = none) := by
+      have hsome : ¬ (¬ s.db.HasBox app mb ∨ s.db.findMbSide mb side = none) := by
         rintro (h1 | h1)
         · exact h1 hh
         · rw [hr0] at h1; cases h1
@@ -712,7 +712,7 @@ theorem mailboxClose_exact {s s1 : Sys} {app mb side : String} {mood : Option St
               us.length = (s.db.nameplatesOfMailbox app mb).length ∧ ∀ u ∈ us, u.app = app) := by
           split at hE
           · obtain ⟨j1, j2, j3, j4, j5, j6⟩ := storeNameplatesOfMailbox_rest _ hE
-            simp only [commit_conns, modDb_conns, commit_rebooted, commit_udb, modDb_udb, commit_db,
+            simp only [commit_conns, modDb_conns, commit_rebooted_mbx, commit_udb, modDb_udb, commit_db,
               modDb_db] at j1 j2 j3 j4 j5 j6
             exact ⟨j1, j2, j3, j4, j5, fun _ => j6 trivial⟩
           · rename_i hu
